@@ -24,8 +24,20 @@ std::string hex(const unsigned char* b, size_t n) {
 }
 template <typename V> std::string hexv(const V& v) { return hex((const unsigned char*)v.data(), v.size()); }
 std::string stackstr(const std::vector<valtype>& st) {
+    // items up to 64 bytes in full; longer ones as "#<length>:<64 bit FNV-1a digest>" so that a session with
+    // 100 KiB items still has an exact, small state description
     std::string s;
-    for (auto& it : st) { s += hexv(it); s += ","; }
+    for (auto& it : st) {
+        if (it.size() <= 64) s += hexv(it);
+        else {
+            unsigned long long h = 1469598103934665603ULL;
+            for (unsigned char c : it) { h ^= c; h *= 1099511628211ULL; }
+            char buf[64];
+            snprintf(buf, sizeof buf, "#%zu:%016llx", it.size(), h);
+            s += buf;
+        }
+        s += ",";
+    }
     return s;
 }
 long long off(const CScript& s, CScript::const_iterator it) {
